@@ -299,7 +299,9 @@ var _ = register(&propSpec{
 			g.seq(3, &root)
 		}
 		g.files["/root.tpl"] = root
-		return &c15Case{Files: g.files, Trim: drawBool(t, "trim"), LStrip: drawBool(t, "lstrip"), Variant: drawInt(t, 0, 11, "variant"), PerTemplate: drawInt(t, 0, 3, "pertemplate") == 0}
+		// per-template options only for single-file documents: whether a template's own options reach
+		// what it includes or extends is not something the property states
+		return &c15Case{Files: g.files, Trim: drawBool(t, "trim"), LStrip: drawBool(t, "lstrip"), Variant: drawInt(t, 0, 11, "variant"), PerTemplate: len(g.files) == 1 && drawInt(t, 0, 1, "pertemplate") == 0}
 	},
 	New:   func() any { return &c15Case{} },
 	Check: checkC15,
